@@ -798,9 +798,12 @@ static double get_entropy(const double temperature, const double f,
     if (classical) {
         return KB - KB * log(f / (KB * temperature));
     } else {
+        /* coth(val) = 1 / tanh(val) and */
+        /* log(2 sinh(val)) = val + log(1 - exp(-2 val)) */
+        /* do not overflow at low temperature (large val). */
         val = f / (2 * KB * temperature);
-        return 1 / (2 * temperature) * f * cosh(val) / sinh(val) -
-               KB * log(2 * sinh(val));
+        return 1 / (2 * temperature) * f / tanh(val) -
+               KB * (val + log1p(-exp(-2 * val)));
     }
 }
 
@@ -808,14 +811,15 @@ static double get_heat_capacity(const double temperature, const double f,
                                 const int classical) {
     /* temperature is defined by T (K) */
     /* 'f' must be given in eV. */
-    /* If val is close to 1. Then expansion is used. */
+    /* exp(-val) is used instead of exp(val) not to overflow at low */
+    /* temperature: x^2 e^x / (e^x - 1)^2 = x^2 e^-x / (1 - e^-x)^2. */
     double val, val1, val2;
     if (classical) {
         return KB;
     } else {
         val = f / (KB * temperature);
-        val1 = exp(val);
-        val2 = (val) / (val1 - 1);
+        val1 = exp(-val);
+        val2 = (val) / (1 - val1);
         return KB * val1 * val2 * val2;
     }
 }
